@@ -1,6 +1,188 @@
-import Driver.Common
-namespace Rtp.Kinds.Vpx
-open Rtp Rtp.Proto
+/-
+  Driver/Kinds/Vpx.lean — case kinds of the VP8/VP9 group (C11, C12, and the VP8/VP9 parts of C08/C09).
 
-def handlers : List (String × Handler) := []
+  Token layouts (mirrored by harness/kinds_vpx.go):
+    vp8md      X N S PID I L T K PictureID TL0PICIDX TID Y KEYIDX          (13 nats)
+    vp8desc    n s pid x  opt(M id)  opt(tl0)  opt(tid y)  opt(keyidx)  ign0 ignX ignTK
+    depobs M   res(bytes) M head tail0 tail1 auxPanic freshSame twinSame
+    c11.dec    vp8desc payload k wire          => res(bytes) vp8md head
+    c11.rt     enable warm calls               => <n> (<m> (bytes res(bytes) vp8md head)*)*
+    c08.vp8    enable calls                    => <n> PayObs*
+    c09.vp8    <n> obytes*                     => <n> (depobs vp8md)*
+    vp9md      I P L F B E V Z PictureID TID U SID D list(PDiff) TL0PICIDX NS Y G NG list(Width) list(Height)
+               list(PGTID) list(PGU) list(list(PGPDiff))
+    vp9desc    p f b e z  opt(M id)  opt(tid u sid d tl0)  list(pdiff)
+               opt(ns opt(list(w h)) opt(list(tid u list(pdiff) ign)) ign)
+    hdrdesc    se <profile> <idx> | nk <profile> sf er | key <profile> sf er bit12 space range subX subY w h
+    hdrfields  Profile ShowExisting Idx NonKey ShowFrame ErrRes opt(T BitDepth CS CR SX SY) opt(w-1 h-1) Width() Height()
+    c12.hdr    opt(hdrdesc) wire               => res(hdrfields)
+    c12.dec    vp9desc payload k wire          => res(bytes) vp9md head
+    c12.rt     flex init <n> (mtu obytes opt(hdrdesc))*  => <n> (<m> (bytes res(bytes) vp9md head)*)*
+    c08.vp9    flex init calls                 => <n> PayObs*
+    c09.vp9    <n> obytes*                     => <n> (depobs vp9md)*
+-/
+import Driver.Common
+import Rtp.Pred.C11
+import Rtp.Pred.C12
+namespace Rtp.Kinds.Vpx
+open Rtp Rtp.Proto Rtp.Pred Rtp.Model
+
+def rdDepObs {M} (rdM : Rd M) : Rd (C09.DepObs M) := do
+  let r ← Rd.resC Rd.bytes
+  let m ← rdM
+  let h ← Rd.bool; let t0 ← Rd.bool; let t1 ← Rd.bool; let ap ← Rd.bool
+  let fs ← Rd.bool; let ts ← Rd.bool
+  pure { res := r, md := m, head := h, tail0 := t0, tail1 := t1, auxPanic := ap, freshSame := fs, twinSame := ts }
+
+/-! ### VP8 -/
+
+def rdVP8Md : Rd VP8Packet := do
+  let x ← Rd.u8; let n ← Rd.u8; let s ← Rd.u8; let pid ← Rd.u8
+  let i ← Rd.u8; let l ← Rd.u8; let t ← Rd.u8; let k ← Rd.u8
+  let pic ← Rd.u16; let tl0 ← Rd.u8; let tid ← Rd.u8; let y ← Rd.u8; let kx ← Rd.u8
+  pure { X := x, N := n, S := s, PID := pid, I := i, L := l, T := t, K := k,
+         PictureID := pic, TL0PICIDX := tl0, TID := tid, Y := y, KEYIDX := kx }
+
+def rdVP8Desc : Rd Spec.Rfc7741.Descriptor := do
+  let n ← Rd.bool; let s ← Rd.bool; let pid ← Rd.u8; let x ← Rd.bool
+  let pic ← Rd.opt (do let m ← Rd.bool; let v ← Rd.u16; pure (m, v))
+  let tl0 ← Rd.opt Rd.u8
+  let tid ← Rd.opt (do let t ← Rd.u8; let y ← Rd.bool; pure (t, y))
+  let kx ← Rd.opt Rd.u8
+  let i0 ← Rd.u8; let ix ← Rd.u8; let itk ← Rd.u8
+  pure { n := n, s := s, pid := pid, x := x, picId := pic, tl0 := tl0, tid := tid, keyidx := kx,
+         ign0 := i0, ignX := ix, ignTK := itk }
+
+def c11Dec : Handler :=
+  mkHandler
+    (do let d ← rdVP8Desc; let p ← Rd.bytes; let k ← Rd.nat; let w ← Rd.bytes; pure (d, p, k, w))
+    (do let r ← Rd.resC Rd.bytes; let m ← rdVP8Md; let h ← Rd.bool
+        pure ({ res := r, md := m, head := h } : C11.DecObs))
+    (fun (_, _, k, w) => C11.obsDec w k)
+    (fun (d, p, k, w) o => C11.dec d p k w o)
+    (fun (d, _, _, _) => d.WF)
+
+def rdVP8Frag : Rd C11.FragObs := do
+  let b ← Rd.bytes; let r ← Rd.resC Rd.bytes; let m ← rdVP8Md; let h ← Rd.bool
+  pure { bytes := b, res := r, md := m, head := h }
+
+def c11Rt : Handler :=
+  mkHandler
+    (do let e ← Rd.bool; let w ← Rd.nat; let cs ← rdCalls; pure (e, w, cs))
+    (Rd.list (Rd.list rdVP8Frag))
+    (fun (e, w, cs) => C11.obsRt e w cs)
+    (fun (e, w, cs) o => C11.rt e w cs o)
+
+def c08Vp8 : Handler :=
+  mkHandler (do let e ← Rd.bool; let cs ← rdCalls; pure (e, cs)) rdPayObsList
+    (fun (e, cs) => C11.obsPay e cs)
+    (fun (_, cs) o => C08.histOk false cs o)
+
+def c09Vp8 : Handler :=
+  mkHandler (Rd.list Rd.obytes) (Rd.list (rdDepObs rdVP8Md))
+    (fun is => C11.obsDep {} is)
+    (fun _ o => C09.histOk true o)
+
+/-! ### VP9 -/
+
+def rdVP9Md : Rd VP9Packet := do
+  let i ← Rd.bool; let p ← Rd.bool; let l ← Rd.bool; let f ← Rd.bool
+  let b ← Rd.bool; let e ← Rd.bool; let v ← Rd.bool; let z ← Rd.bool
+  let pic ← Rd.u16; let tid ← Rd.u8; let u ← Rd.bool; let sid ← Rd.u8; let d ← Rd.bool
+  let pd ← Rd.list Rd.u8; let tl0 ← Rd.u8
+  let ns ← Rd.u8; let y ← Rd.bool; let g ← Rd.bool; let ng ← Rd.u8
+  let w ← Rd.list Rd.u16; let h ← Rd.list Rd.u16
+  let pgt ← Rd.list Rd.u8; let pgu ← Rd.list Rd.bool; let pgp ← Rd.list (Rd.list Rd.u8)
+  pure { I := i, P := p, L := l, F := f, B := b, E := e, V := v, Z := z, PictureID := pic,
+         TID := tid, U := u, SID := sid, D := d, PDiff := pd, TL0PICIDX := tl0,
+         NS := ns, Y := y, G := g, NG := ng, Width := w, Height := h,
+         PGTID := pgt, PGU := pgu, PGPDiff := pgp }
+
+def rdVP9Desc : Rd Spec.Vp9Rtp.Descriptor := do
+  let p ← Rd.bool; let f ← Rd.bool; let b ← Rd.bool; let e ← Rd.bool; let z ← Rd.bool
+  let pic ← Rd.opt (do let m ← Rd.bool; let v ← Rd.u16; pure (m, v))
+  let layer ← Rd.opt (do
+    let tid ← Rd.u8; let u ← Rd.bool; let sid ← Rd.u8; let d ← Rd.bool; let tl0 ← Rd.u8
+    pure ({ tid := tid, u := u, sid := sid, d := d, tl0 := tl0 } : Spec.Vp9Rtp.Layer))
+  let pd ← Rd.list Rd.u8
+  let ss ← Rd.opt (do
+    let ns ← Rd.u8
+    let res ← Rd.opt (Rd.list (do let w ← Rd.u16; let h ← Rd.u16; pure (w, h)))
+    let pg ← Rd.opt (Rd.list (do
+      let tid ← Rd.u8; let u ← Rd.bool; let pds ← Rd.list Rd.u8; let ign ← Rd.u8
+      pure ({ tid := tid, u := u, pdiffs := pds, ign := ign } : Spec.Vp9Rtp.PG)))
+    let ign ← Rd.u8
+    pure ({ ns := ns, res := res, pg := pg, ign := ign } : Spec.Vp9Rtp.SS))
+  pure { p := p, f := f, b := b, e := e, z := z, picId := pic, layer := layer, pdiffs := pd, ss := ss }
+
+def rdHdrDesc : Rd Spec.Vp9Bits.Hdr := do
+  let t ← Rd.tok
+  match t with
+  | "se" => do let p ← Rd.u8; let i ← Rd.u8; pure (.showExisting p i)
+  | "nk" => do let p ← Rd.u8; let sf ← Rd.bool; let er ← Rd.bool; pure (.nonKey p sf er)
+  | "key" => do
+    let p ← Rd.u8; let sf ← Rd.bool; let er ← Rd.bool
+    let b12 ← Rd.bool; let sp ← Rd.u8; let rg ← Rd.bool; let sx ← Rd.bool; let sy ← Rd.bool
+    let w ← Rd.nat; let h ← Rd.nat
+    pure (.key p sf er { bit12 := b12, space := sp, range := rg, subX := sx, subY := sy } w h)
+  | _ => Rd.fail
+
+def rdHdrFields : Rd C12.HdrFields := do
+  let pr ← Rd.u8; let se ← Rd.bool; let idx ← Rd.u8; let nk ← Rd.bool; let sf ← Rd.bool; let er ← Rd.bool
+  let cc ← Rd.opt (do
+    let t ← Rd.bool; let bd ← Rd.u8; let cs ← Rd.u8; let cr ← Rd.bool; let sx ← Rd.bool; let sy ← Rd.bool
+    pure ({ TenOrTwelveBit := t, BitDepth := bd, ColorSpace := cs, ColorRange := cr,
+            SubsamplingX := sx, SubsamplingY := sy } : Vp9ColorConfig))
+  let fs ← Rd.opt (do
+    let w ← Rd.u16; let h ← Rd.u16
+    pure ({ FrameWidthMinus1 := w, FrameHeightMinus1 := h } : Vp9FrameSize))
+  let w ← Rd.u16; let h ← Rd.u16
+  pure { hd := { Profile := pr, ShowExistingFrame := se, FrameToShowMapIdx := idx, NonKeyFrame := nk,
+                 ShowFrame := sf, ErrorResilientMode := er, ColorConfig := cc, FrameSize := fs },
+         width := w, height := h }
+
+def c12Hdr : Handler :=
+  mkHandler (do let d ← Rd.opt rdHdrDesc; let w ← Rd.bytes; pure (d, w)) (Rd.resC rdHdrFields)
+    (fun (_, w) => C12.obsHdr w)
+    (fun (d, w) o => C12.hdr d w o)
+    (fun (d, _) => match d with | some h => h.WF | none => false)
+
+def c12Dec : Handler :=
+  mkHandler
+    (do let d ← rdVP9Desc; let p ← Rd.bytes; let k ← Rd.nat; let w ← Rd.bytes; pure (d, p, k, w))
+    (do let r ← Rd.resC Rd.bytes; let m ← rdVP9Md; let h ← Rd.bool
+        pure ({ res := r, md := m, head := h } : C12.DecObs))
+    (fun (_, _, k, w) => C12.obsDec w k)
+    (fun (d, p, k, w) o => C12.dec d p k w o)
+    (fun (d, _, _, _) => d.WF 5)
+
+def rdVP9Frag : Rd C12.FragObs := do
+  let b ← Rd.bytes; let r ← Rd.resC Rd.bytes; let m ← rdVP9Md; let h ← Rd.bool
+  pure { bytes := b, res := r, md := m, head := h }
+
+def rdVP9Call : Rd C12.Call := do
+  let m ← Rd.u16; let b ← Rd.obytes; let d ← Rd.opt rdHdrDesc
+  pure { mtu := m, frame := b, desc := d }
+
+def c12Rt : Handler :=
+  mkHandler
+    (do let f ← Rd.bool; let i ← Rd.u16; let cs ← Rd.list rdVP9Call; pure (f, i, cs))
+    (Rd.list (Rd.list rdVP9Frag))
+    (fun (f, i, cs) => C12.obsRt f i cs)
+    (fun (f, i, cs) o => C12.rt f i cs o)
+    (fun (f, _, cs) => cs.all (C12.proper f))
+
+def c08Vp9 : Handler :=
+  mkHandler (do let f ← Rd.bool; let i ← Rd.u16; let cs ← rdCalls; pure (f, i, cs)) rdPayObsList
+    (fun (f, i, cs) => C12.obsPay f i cs)
+    (fun (_, _, cs) o => C08.histOk false cs o)
+
+def c09Vp9 : Handler :=
+  mkHandler (Rd.list Rd.obytes) (Rd.list (rdDepObs rdVP9Md))
+    (fun is => C12.obsDep {} is)
+    (fun _ o => C09.histOk true o)
+
+def handlers : List (String × Handler) :=
+  [("c11.dec", c11Dec), ("c11.rt", c11Rt), ("c08.vp8", c08Vp8), ("c09.vp8", c09Vp8),
+   ("c12.hdr", c12Hdr), ("c12.dec", c12Dec), ("c12.rt", c12Rt), ("c08.vp9", c08Vp9), ("c09.vp9", c09Vp9)]
 end Rtp.Kinds.Vpx
